@@ -100,6 +100,13 @@ def histories(tier):
         st = [{"op": "item", "a": R(2), "i": 0}, {"op": "item", "a": R(3), "i": 0}, {"op": "item", "a": R(3), "i": 1}, BIN("mul", R(4), R(5)), BIN("sub", R(6), R(4))]
         H.append(("struct/%d,%d" % (a, b), [S(a), U(b), sub("g", [{"l": [R(0), R(1), {"c": 9}]}, {"c": 4}], st, {"t": [R(6), R(7), {"c": 1}]}),
                                             {"op": "item", "a": R(8), "i": 1}, VAL(R(9))]))
+    # a proving step in the middle: the function is called before and after it, and a new one only afterwards
+    for (a, b) in ((3, 2), (-2, 5)):
+        c1 = [{"op": "item", "a": R(2), "i": 0}, BIN("mul", R(3), R(3))]
+        c2 = [{"op": "item", "a": R(7), "i": 0}, BIN("mul", R(8), R(8))]
+        c3 = [{"op": "item", "a": R(11), "i": 0}, BIN("mul", R(12), R(12)), BIN("mul", R(13), R(12))]
+        H.append(("midprove/%d,%d" % (a, b), [S(a), U(b), sub("f", [R(0)], c1, R(4)), {"op": "prove"}, sub("f", [R(1)], c2, R(9)),
+                                              sub("g", [R(5)], c3, R(14)), VAL(R(15))]))
     # a comparison inside a sub-circuit (uses the global constant one)
     cmpb = [{"op": "item", "a": R(1), "i": 0}, BIN("eq", R(2), {"c": 3})]
     H.append(("cmpinside/3", [S(3), sub("h", [R(0)], cmpb, R(2)), {"op": "peek", "a": {"c": 0}}]))
@@ -131,6 +138,9 @@ def from_model(hist):
             for k in range(n):
                 body.append({"op": "item", "a": R(fr["argsreg"]), "i": k}); fr["wires"].append(reg); reg += 1
             stack.append(fr)
+        elif a == "prove":
+            if h is not hist[-1]:
+                top.append({"op": "prove"}); reg += 1      # a proving step in the middle of the program (the last one is the runner's)
         elif a == "ret":
             fr = stack.pop()
             ret = R(fr["wires"][-1]) if h["n"] == 1 else {"c": 7}
@@ -171,6 +181,9 @@ def run_one(args):
     if p.returncode != 0 or not os.path.exists(of):
         raise common.MachineryError("qaprun failed for %s: %s" % (hid, p.stderr.decode("utf8", "replace")[-1500:]))
     out = json.load(open(of))
+    mid = [e for e in out.get("mid_prove_err", []) if e]
+    if mid and not out["prove_err"]:
+        out["prove_err"] = mid[0]           # a proving step in the middle of the program failed: judged like the final one
     eqs = qap.parse_eqs(os.path.join(wd, "pysnark_eqs"))           # read after the process ended: complete
     wires = qap.parse_values(os.path.join(wd, "pysnark_wires"))
     io = qap.parse_values(os.path.join(wd, "pysnark_values"))
